@@ -175,25 +175,26 @@ fn name_bytes(fam: u8) -> &'static [u8] {
     name_str(fam).as_bytes()
 }
 
-/// `Name(d1d2)` (what Display prints for a two-digit parameter) parses to that variant and value
-pub fn parse_two_digits<S: Src, const FAM: u8, const TWO: bool>(s: &mut S) {
+/// `prefix + NDIG decimal digits + suffix` (what Display prints for an NDIG-digit parameter, first digit
+/// non-zero unless NDIG == 1) parses to that variant with that parameter
+pub fn parse_digits<S: Src, const FAM: u8, const NDIG: usize>(s: &mut S) {
     let name = name_bytes(FAM);
-    let mut buf = [0u8; 24];
+    let mut buf = [0u8; 40];
     let mut n = 0;
     while n < name.len() {
         buf[n] = name[n];
         n += 1;
     }
-    let d1 = s.u8();
-    let d2 = s.u8();
-    let two = TWO;
-    s.assume(d1 <= 9 && d2 <= 9 && (!two || d1 >= 1));
-    if two {
-        buf[n] = b'0' + d1;
+    let mut val: usize = 0;
+    let mut i = 0;
+    while i < NDIG {
+        let d = s.u8();
+        s.assume(d <= 9 && (i > 0 || NDIG == 1 || d >= 1));
+        buf[n] = b'0' + d;
         n += 1;
+        val = val * 10 + d as usize;
+        i += 1;
     }
-    buf[n] = b'0' + d2;
-    n += 1;
     let suf = suffix_str(FAM).as_bytes();
     let mut q = 0;
     while q < suf.len() {
@@ -203,7 +204,6 @@ pub fn parse_two_digits<S: Src, const FAM: u8, const TWO: bool>(s: &mut S) {
     }
     // all bytes are ASCII by construction
     let text = unsafe { core::str::from_utf8_unchecked(&buf[..n]) };
-    let val = if two { 10 * d1 as usize + d2 as usize } else { d2 as usize };
     let parsed = ok_or_forget(text.parse::<Codes>());
     let ok = match parsed {
         Some(Codes::Zeta { k }) => FAM == ZETA && k == val,
@@ -214,8 +214,7 @@ pub fn parse_two_digits<S: Src, const FAM: u8, const TWO: bool>(s: &mut S) {
         _ => false,
     };
     assert!(ok, "printed form Name(k) does not parse back to the same variant and parameter");
-    crate::cover!(s, !two || val == 99, "two digits");
-    crate::cover!(s, two || val == 0, "one digit");
+    crate::cover!(s, val % 10 == 9, "last digit nine");
 }
 
 /// the parameterless names parse to their variants
@@ -1043,52 +1042,52 @@ crate::harnesses! {
     #[kani::stub(std::string::ToString::to_string, stub_to_string)]
     #[kani::stub(std::backtrace::Backtrace::capture, stub_backtrace_capture)]
     #[kani::unwind(20)]
-    c16_parse_zeta (thorough, "FromStr for Codes", "Zeta(k) with a symbolic two-digit k (10..=99)") => parse_two_digits::<_, {ZETA}, true>;
+    c16_parse_zeta (thorough, "FromStr for Codes", "Zeta(k) with a symbolic two-digit k (10..=99)") => parse_digits::<_, {ZETA}, 2>;
     #[kani::stub(alloc::fmt::format, stub_format)]
     #[kani::stub(std::string::ToString::to_string, stub_to_string)]
     #[kani::stub(std::backtrace::Backtrace::capture, stub_backtrace_capture)]
     #[kani::unwind(20)]
-    c16_parse1_zeta (thorough, "FromStr for Codes", "Zeta(k) with a symbolic one-digit k") => parse_two_digits::<_, {ZETA}, false>;
+    c16_parse1_zeta (thorough, "FromStr for Codes", "Zeta(k) with a symbolic one-digit k") => parse_digits::<_, {ZETA}, 1>;
     #[kani::stub(alloc::fmt::format, stub_format)]
     #[kani::stub(std::string::ToString::to_string, stub_to_string)]
     #[kani::stub(std::backtrace::Backtrace::capture, stub_backtrace_capture)]
     #[kani::unwind(20)]
-    c16_parse_pi (thorough, "FromStr for Codes", "Pi(k) with a symbolic two-digit k (10..=99)") => parse_two_digits::<_, {PI}, true>;
+    c16_parse_pi (thorough, "FromStr for Codes", "Pi(k) with a symbolic two-digit k (10..=99)") => parse_digits::<_, {PI}, 2>;
     #[kani::stub(alloc::fmt::format, stub_format)]
     #[kani::stub(std::string::ToString::to_string, stub_to_string)]
     #[kani::stub(std::backtrace::Backtrace::capture, stub_backtrace_capture)]
     #[kani::unwind(20)]
-    c16_parse1_pi (thorough, "FromStr for Codes", "Pi(k) with a symbolic one-digit k") => parse_two_digits::<_, {PI}, false>;
+    c16_parse1_pi (thorough, "FromStr for Codes", "Pi(k) with a symbolic one-digit k") => parse_digits::<_, {PI}, 1>;
     #[kani::stub(alloc::fmt::format, stub_format)]
     #[kani::stub(std::string::ToString::to_string, stub_to_string)]
     #[kani::stub(std::backtrace::Backtrace::capture, stub_backtrace_capture)]
     #[kani::unwind(20)]
-    c16_parse_golomb (thorough, "FromStr for Codes", "Golomb(k) with a symbolic two-digit k (10..=99)") => parse_two_digits::<_, {GOLOMB}, true>;
+    c16_parse_golomb (thorough, "FromStr for Codes", "Golomb(k) with a symbolic two-digit k (10..=99)") => parse_digits::<_, {GOLOMB}, 2>;
     #[kani::stub(alloc::fmt::format, stub_format)]
     #[kani::stub(std::string::ToString::to_string, stub_to_string)]
     #[kani::stub(std::backtrace::Backtrace::capture, stub_backtrace_capture)]
     #[kani::unwind(20)]
-    c16_parse1_golomb (thorough, "FromStr for Codes", "Golomb(k) with a symbolic one-digit k") => parse_two_digits::<_, {GOLOMB}, false>;
+    c16_parse1_golomb (thorough, "FromStr for Codes", "Golomb(k) with a symbolic one-digit k") => parse_digits::<_, {GOLOMB}, 1>;
     #[kani::stub(alloc::fmt::format, stub_format)]
     #[kani::stub(std::string::ToString::to_string, stub_to_string)]
     #[kani::stub(std::backtrace::Backtrace::capture, stub_backtrace_capture)]
     #[kani::unwind(20)]
-    c16_parse_exp_golomb (thorough, "FromStr for Codes", "ExpGolomb(k) with a symbolic two-digit k (10..=99)") => parse_two_digits::<_, {EXP_GOLOMB}, true>;
+    c16_parse_exp_golomb (thorough, "FromStr for Codes", "ExpGolomb(k) with a symbolic two-digit k (10..=99)") => parse_digits::<_, {EXP_GOLOMB}, 2>;
     #[kani::stub(alloc::fmt::format, stub_format)]
     #[kani::stub(std::string::ToString::to_string, stub_to_string)]
     #[kani::stub(std::backtrace::Backtrace::capture, stub_backtrace_capture)]
     #[kani::unwind(20)]
-    c16_parse1_exp_golomb (thorough, "FromStr for Codes", "ExpGolomb(k) with a symbolic one-digit k") => parse_two_digits::<_, {EXP_GOLOMB}, false>;
+    c16_parse1_exp_golomb (thorough, "FromStr for Codes", "ExpGolomb(k) with a symbolic one-digit k") => parse_digits::<_, {EXP_GOLOMB}, 1>;
     #[kani::stub(alloc::fmt::format, stub_format)]
     #[kani::stub(std::string::ToString::to_string, stub_to_string)]
     #[kani::stub(std::backtrace::Backtrace::capture, stub_backtrace_capture)]
     #[kani::unwind(20)]
-    c16_parse_rice (thorough, "FromStr for Codes", "Rice(k) with a symbolic two-digit k (10..=99)") => parse_two_digits::<_, {RICE}, true>;
+    c16_parse_rice (thorough, "FromStr for Codes", "Rice(k) with a symbolic two-digit k (10..=99)") => parse_digits::<_, {RICE}, 2>;
     #[kani::stub(alloc::fmt::format, stub_format)]
     #[kani::stub(std::string::ToString::to_string, stub_to_string)]
     #[kani::stub(std::backtrace::Backtrace::capture, stub_backtrace_capture)]
     #[kani::unwind(20)]
-    c16_parse1_rice (thorough, "FromStr for Codes", "Rice(k) with a symbolic one-digit k") => parse_two_digits::<_, {RICE}, false>;
+    c16_parse1_rice (thorough, "FromStr for Codes", "Rice(k) with a symbolic one-digit k") => parse_digits::<_, {RICE}, 1>;
     #[kani::stub(alloc::fmt::format, stub_format)]
     #[kani::stub(std::string::ToString::to_string, stub_to_string)]
     #[kani::stub(std::backtrace::Backtrace::capture, stub_backtrace_capture)]
@@ -1184,4 +1183,34 @@ crate::harnesses! {
     #[kani::stub(std::backtrace::Backtrace::capture, stub_backtrace_capture)]
     #[kani::unwind(20)]
     c16_parse_unknown_name (thorough, "FromStr for Codes", "symbolic 4-letter alphabetic name other than Zeta/Rice, parameter 7") => parse_unknown_name;
+    #[kani::stub(alloc::fmt::format, stub_format)]
+    #[kani::stub(std::string::ToString::to_string, stub_to_string)]
+    #[kani::stub(std::backtrace::Backtrace::capture, stub_backtrace_capture)]
+    #[kani::unwind(24)]
+    c16_parse3_zeta (thorough, "FromStr for Codes", "Zeta(k) with a symbolic three-digit k (100..=999)") => parse_digits::<_, {ZETA}, 3>;
+    #[kani::stub(alloc::fmt::format, stub_format)]
+    #[kani::stub(std::string::ToString::to_string, stub_to_string)]
+    #[kani::stub(std::backtrace::Backtrace::capture, stub_backtrace_capture)]
+    #[kani::unwind(24)]
+    c16_parse3_pi (thorough, "FromStr for Codes", "Pi(k) with a symbolic three-digit k (100..=999)") => parse_digits::<_, {PI}, 3>;
+    #[kani::stub(alloc::fmt::format, stub_format)]
+    #[kani::stub(std::string::ToString::to_string, stub_to_string)]
+    #[kani::stub(std::backtrace::Backtrace::capture, stub_backtrace_capture)]
+    #[kani::unwind(24)]
+    c16_parse3_golomb (thorough, "FromStr for Codes", "Golomb(k) with a symbolic three-digit k (100..=999)") => parse_digits::<_, {GOLOMB}, 3>;
+    #[kani::stub(alloc::fmt::format, stub_format)]
+    #[kani::stub(std::string::ToString::to_string, stub_to_string)]
+    #[kani::stub(std::backtrace::Backtrace::capture, stub_backtrace_capture)]
+    #[kani::unwind(24)]
+    c16_parse3_exp_golomb (thorough, "FromStr for Codes", "ExpGolomb(k) with a symbolic three-digit k (100..=999)") => parse_digits::<_, {EXP_GOLOMB}, 3>;
+    #[kani::stub(alloc::fmt::format, stub_format)]
+    #[kani::stub(std::string::ToString::to_string, stub_to_string)]
+    #[kani::stub(std::backtrace::Backtrace::capture, stub_backtrace_capture)]
+    #[kani::unwind(24)]
+    c16_parse3_rice (thorough, "FromStr for Codes", "Rice(k) with a symbolic three-digit k (100..=999)") => parse_digits::<_, {RICE}, 3>;
+    #[kani::stub(alloc::fmt::format, stub_format)]
+    #[kani::stub(std::string::ToString::to_string, stub_to_string)]
+    #[kani::stub(std::backtrace::Backtrace::capture, stub_backtrace_capture)]
+    #[kani::unwind(30)]
+    c16_parse5_rice (thorough, "FromStr for Codes", "Rice(k) with a symbolic five-digit k") => parse_digits::<_, {RICE}, 5>;
 }
